@@ -12,7 +12,7 @@ from holopy.scattering import Sphere, Spheres, Scatterers
 from holopy.scattering.scatterer import Ellipsoid, Spheroid, Cylinder, RigidCluster
 
 ID = "C19"
-LEAN_MODULES = ["HoloProps.C19", "HoloProps.C19Coords", "HoloProps.C19Rigid"]
+LEAN_MODULES = ["HoloProps.C19", "HoloProps.C19Coords", "HoloProps.C19Rigid", "HoloProps.C19Nested"]
 MODEL_MODULES = ["HoloModel.Rigid", "HoloGen.Math"]
 GEN_DEPS = ["Math"]
 NOT_PROVED = [
